@@ -30,7 +30,8 @@ def resolve(p):
 def run(ctx):
     findings = load_findings('C19')
     lean_props(ctx)
-    if cargo_repo_bins(ctx, ('sccache', 'sccache-dist')):
+    bins_ok = cargo_repo_bins(ctx, ('sccache', 'sccache-dist'))
+    if bins_ok:
         rng = random.Random(ctx.seed); n = 4000 if ctx.quick() else 200000
         w = ctx.work
         pairs = [(mk(rng), mk(rng)) for _ in range(n)]
@@ -78,7 +79,7 @@ def run(ctx):
             ctx.cov.update(path_pairs=n, pairs_with_dotdot=dd, join_suffix_alone_would_escape=lexical_escapes, refused_by_resolve_inside=refused)
             def rp(fl): return ('monitor-' + fl['kind'], ['cwd<TAB>path<TAB>Path::join<TAB>join_suffix(/srv/b/t, …)<TAB>parent — from the real code (hook H6)', 'observed: ' + fl['detail']], '\n'.join(fl['ops']))
             monitor_failures(ctx, fails[:50], findings, 'join_suffix confinement monitor', rp)
-    if cargo_harness(ctx, ['h_distjob']) and os.path.exists(repo_bin('sccache-dist')):
+    if bins_ok and cargo_harness(ctx, ['h_distjob']):
         res = sys_c19.run(os.path.join(ctx.work, 'cluster'), 'c19', ctx.seed, 1 if ctx.quick() else 6)
         ctx.evaluations += res['jobs']; ctx.distinct_nontrivial += res['jobs']; ctx.samples += res['samples'][:1]
         ctx.cov['real_build_server'] = {k: v for k, v in res.items() if k not in ('fails', 'samples')}
